@@ -61,8 +61,8 @@ var properties = map[string]*Property{
 		NotDecided: "bit-level behaviour of the partial last word in pull().",
 	},
 	"C10": {
-		Rules:      []string{"R-WIRE", "R-TABLES"},
-		Decided:    "every curated wire constant of bitstream format 6 (magic, version, masks, hash primes and seeds, codec type codes, chunk sizes, coder tops, escape tokens, table digests) still has its frozen value; name/type tables are a bijection.",
+		Rules:      []string{"R-WIRE", "R-TABLES", "R-CKSUM"},
+		Decided:    "every curated wire constant of bitstream format 6 (magic, version, masks, hash primes and seeds, codec type codes, chunk sizes, coder tops, escape tokens, table digests) still has its frozen value; name/type tables are a bijection. The block checksum field is written (encode) and read and compared (decode) for every block of a checksummed stream, copy blocks included.",
 		NotDecided: "algorithmic changes that keep every constant; tables computed at init; encoder-only changes.",
 	},
 	"C11": {
